@@ -23,6 +23,7 @@ CONSTANTS N,            \* number of samples
           Comps,        \* set of compositions of N: sequences of positive block lengths summing to N
           Caps,         \* iteration caps (naturals, or NoCap)
           Thrs,         \* thresholds (non-negative rationals, or NoThr)
+          Sims,         \* similarities used by Equivariant: records [s, q, t]
           MaxStep,      \* bound on explored iterations when the cap is None
           Dev           \* set of named deviations switched on
 
@@ -129,6 +130,23 @@ AllFinite == Finite(cent) /\ crit # NaN
 ChunkInvariant == [][act' = "Iter" =>
                        /\ crit' = dist
                        /\ \A k \in 1..K : RedCount(asg', k) = R(Cardinality(Members(asg', k)))]_vars
+
+\* C15: similarities x -> s * Rot^q x + t of the data and the centroids (s a non-zero integer, t an
+\* integer vector, Rot the 90-degree rotation when Dm = 2): nearest sets are unchanged, the new centroids are
+\* the images of the new centroids, and criterion and distortion scale by s^2.  Exact on the grid.
+Rot(p, q) == IF Dm = 2 /\ q = 1 THEN <<Neg(p[2]), p[1]>> ELSE p
+Sim(g, p) == [j \in 1..Dm |-> Add(Mul(R(g.s), Rot(p, g.q)[j]), R(g.t[j]))]
+SimDistTable(g, cs) == [i \in Idx |-> [k \in 1..K |-> SqDist(Sim(g, Pt(i)), Sim(g, cs[k]))]]
+Equivariant ==
+    [][act' = "Iter" => \A g \in Sims :
+          LET dt == DistTable(cent)
+              dt2 == SimDistTable(g, cent)
+              s2 == R(g.s * g.s)
+          IN /\ \A i \in Idx : NearestIn(dt2[i]) = NearestIn(dt[i])
+             /\ \A i \in Idx, k \in 1..K : dt2[i][k] = Mul(s2, dt[i][k])
+             /\ \A k \in 1..K : Members(asg', k) # {} =>
+                    Sim(g, cent'[k]) = VScale(Div(One, R(Cardinality(Members(asg', k)))),
+                                              VSumOver([i \in Idx |-> Sim(g, Pt(i))], Members(asg', k), Dm))]_vars
 
 \* ---------------- export of the state graph (M2)
 ScnRec == [data |-> data, comp |-> comp, cap |-> cap, thr |-> thr]
